@@ -230,7 +230,8 @@ def shard(s):
     kind = s[0]
 
     def consume(text, depth, case, real=None):
-        v, verdict, calls = check_text(text, depth, case, real)
+        with core.istate(text[:200]):
+            v, verdict, calls = check_text(text, depth, case, real)
         acc.states += 1
         acc.traces += 1
         acc.transitions += calls
@@ -397,6 +398,7 @@ def run(tier, seed, t0):
     for n_ in ((11000,) if tier == "quick" else (9000, 12000, 20000, 35000, 70000)):
         shards.insert(0, ("longfiles", (n_,)))
     acc = core.pmap(shard, shards)
+    acc.merge(core.run_optimized(PROP, tier))      # the rejection battery once more under `python -O`
     return core.finish(
         PROP, tier, seed, acc, t0,
         rule="every file text of length 0..%d over %d symbols %r served through an in-memory open(), every structured layout "
@@ -410,6 +412,11 @@ def run(tier, seed, t0):
         bounds={"L": L, "symbols": len(syms), "full_vector_upto": d2, "object_upto": d1},
         assumptions=["dont-care: tabs/CR/exotic whitespace, header after sequence text, no residues at all, digits after the final '*'"],
         min_outcomes=3)
+
+
+def opt_shards(tier):
+    return [(shard, ("words", SYMS8, 4, (), 4, 4)), (shard, ("corrupt", SEQ23, 0)), (shard, ("bytes",)),
+            (shard, ("real", ["AKE\n", ">h\nAK E\n12 KA*\n", "AK\n>h\n>h2\nA", "A*K\n", "AK\rb\r"]))]
 
 
 def replay(case):
